@@ -518,9 +518,13 @@ func (c *Conn) doHandshake() error {
 
 			if st.HeaderTableSize() <= defaultHeaderTableSize {
 				c.enc.SetMaxTableSize(st.HeaderTableSize())
-				c.encTableSize = st.HeaderTableSize()
-				c.encTableSizeSeen = st.HeaderTableSize()
 			}
+
+			// Remembered even when it is more than the encoder makes use of:
+			// a later SETTINGS frame is compared with it, and one that takes
+			// the table down to 0 looked like no change at all otherwise.
+			c.encTableSize = st.HeaderTableSize()
+			c.encTableSizeSeen = st.HeaderTableSize()
 
 			// reply back
 			fr := AcquireFrameHeader()
